@@ -1,2 +1,231 @@
-/-! stub: replaced by the Legacy group driver -/
-def main : IO Unit := pure ()
+import MesaModel.Model.Legacy
+import MesaModel.Model.LegacyNbhd
+/-!
+Line-protocol driver for the legacy-grid model (C08, C09, C18-legacy).  One output line per input line.
+Producer: harness/legacy_common.py.
+
+  scenario grid single|multi|hexsingle|hexmulti W H TORUS LAYERS CUTOFF NAGENTS     reset
+  scenario net N NAGENTS M a1 b1 … aM bM                                            reset (NetworkGrid)
+
+grid ops (agents are 0..NAGENTS-1; `:` introduces the script of raw random draws)
+  place a x y | remove a | move a x y | swap a b | mte a : r… |
+  mto a random|closest|other none|warning|error K x1 y1 … xK yK : r…
+  empties | exists | isempty x y | mask | agents | iter | get x y | dump
+  nbhd|inbhd x y MOORE IC R | nbrs|inbrs x y MOORE IC R | nmask x y MOORE IC R | clc|iclc K x1 y1 …
+  hnbhd|ihnbhd x y IC R | hnbrs|ihnbrs x y IC R
+net ops
+  nplace a v | nremove a | nmove a v | nnbhd v IC R | nnbrs v IC R | nclc K v1 … | nagents | nisempty v | ndump
+-/
+open Mesa.Legacy
+
+def words (s : String) : List String := (s.splitOn " ").filter (· ≠ "")
+
+def fmtErr : Err → String
+  | .full => "err Full" | .oob => "err OutOfBounds" | .type => "err Type" | .value => "err Value"
+  | .noPos => "err NoPos" | .noEmpty => "err NoEmpty" | .script => "err Script" | .key => "err Key"
+
+def fmtRes : Res → String
+  | .ok => "ok"
+  | .err e => fmtErr e
+
+def fmtCoord (c : Coord) : String := s!"{c.1},{c.2}"
+def fmtCoords (cs : List Coord) : String := " ".intercalate (cs.map fmtCoord)
+def fmtIds (l : List Nat) : String := " ".intercalate (l.map toString)
+def fmtCell (l : List Nat) : String := if l.isEmpty then "-" else ",".intercalate (l.map toString)
+def fmtBits (l : List Bool) : String := String.join (l.map fun b => if b then "1" else "0")
+def sp (s : String) : String := if s.isEmpty then "ok" else "ok " ++ s
+
+def bool? (s : String) : Option Bool := if s = "1" then some true else if s = "0" then some false else none
+def ints? (ws : List String) : Option (List Int) := ws.mapM String.toInt?
+def nats? (ws : List String) : Option (List Nat) := ws.mapM String.toNat?
+
+def pairs : List Int → Option (List Coord)
+  | [] => some []
+  | x :: y :: rest => (pairs rest).map ((x, y) :: ·)
+  | _ => none
+
+def npairs : List Nat → Option (List (Nat × Nat))
+  | [] => some []
+  | x :: y :: rest => (npairs rest).map ((x, y) :: ·)
+  | _ => none
+
+/-- split at the first ":" token -/
+def splitScript (ws : List String) : Option (List String × List String) :=
+  match ws.span (· ≠ ":") with
+  | (a, _ :: b) => some (a, b)
+  | _ => none
+
+inductive St where
+  | none
+  | grid (g : Grid) (hex : Bool) (nag : Nat) (nc : NCache) (hc : HCache)
+  | net (t : Net) (nag : Nat)
+
+def dumpGrid (g : Grid) (nag : Nat) : String :=
+  let ps := (List.range nag).map fun a => match g.pos a with | some p => fmtCoord p | none => "-"
+  let cs := g.allCells.filterMap fun c => if (g.content c).isEmpty then none else some (fmtCoord c ++ "=" ++ fmtCell (g.content c))
+  s!"ok P {" ".intercalate ps} C {" ".intercalate cs} M {fmtBits (g.allCells.map g.mask)} E {fmtBits (g.allCells.map g.isCellEmpty)}"
+
+def inGridB (g : Grid) (p : Coord) : Bool := !g.oob p
+
+def sel? (s : String) : Grid.Selection :=
+  if s = "random" then .random else if s = "closest" then .closest else .other
+
+def he? (s : String) : Option Grid.HandleEmpty :=
+  if s = "none" then some .none else if s = "warning" then some .warning else if s = "error" then some .error else Option.none
+
+def gridLine (g : Grid) (hex : Bool) (nag : Nat) (nc : NCache) (hc : HCache) (ws : List String) : St × String :=
+  let keep := St.grid g hex nag nc hc
+  let bad : St × String := (keep, "bad-op")
+  let upd (r : Grid × Res) : St × String := (St.grid r.1 hex nag nc hc, fmtRes r.2)
+  let okA (a : Nat) : Bool := a < nag
+  let clc (k : String) (rest : List String) : St × String :=
+    match k.toNat?, (ints? rest).bind pairs with
+    | some k, some cs => if cs.length = k && cs.all (inGridB g) then (keep, sp (fmtIds (cellsContents g cs))) else bad
+    | _, _ => bad
+  match ws with
+  | ["place", a, x, y] =>
+    match a.toNat?, x.toInt?, y.toInt? with
+    | some a, some x, some y => if okA a && inGridB g (x, y) then upd (g.place a (x, y)) else bad
+    | _, _, _ => bad
+  | ["remove", a] =>
+    match a.toNat? with
+    | some a => if okA a then upd (g.remove a) else bad
+    | _ => bad
+  | ["move", a, x, y] =>
+    match a.toNat?, x.toInt?, y.toInt? with
+    | some a, some x, some y => if okA a then upd (g.move a (x, y)) else bad
+    | _, _, _ => bad
+  | ["swap", a, b] =>
+    match a.toNat?, b.toNat? with
+    | some a, some b => if okA a && okA b then upd (g.swap a b) else bad
+    | _, _ => bad
+  | "mte" :: a :: ":" :: rest =>
+    match a.toNat?, nats? rest with
+    | some a, some s => if okA a then upd (g.moveToEmpty a s) else bad
+    | _, _ => bad
+  | "mto" :: a :: sel :: he :: k :: rest =>
+    match a.toNat?, he? he, k.toNat?, splitScript rest with
+    | some a, some he, some k, some (cs, sc) =>
+      match (ints? cs).bind pairs, nats? sc with
+      | some ps, some s => if okA a && ps.length = k then upd (g.moveToOneOf a ps (sel? sel) he s) else bad
+      | _, _ => bad
+    | _, _, _, _ => bad
+  | ["empties"] => let r := g.readEmpties; (St.grid r.1 hex nag nc hc, sp (fmtCoords r.2))
+  | ["exists"] => let r := g.existsEmpty; (St.grid r.1 hex nag nc hc, if r.2 then "ok 1" else "ok 0")
+  | ["isempty", x, y] =>
+    match x.toInt?, y.toInt? with
+    | some x, some y => if inGridB g (x, y) then (keep, if g.isCellEmpty (x, y) then "ok 1" else "ok 0") else bad
+    | _, _ => bad
+  | ["mask"] => (keep, sp (fmtBits (g.allCells.map g.mask)))
+  | ["agents"] => (keep, sp (fmtIds g.agentsList))
+  | ["iter"] => (keep, sp (" ".intercalate (g.allCells.map fun c => fmtCell (g.content c))))
+  | ["get", x, y] =>
+    match x.toInt?, y.toInt? with
+    | some x, some y =>
+      match g.getItem (x, y) with
+      | .ok l => (keep, "ok " ++ fmtCell l)
+      | .error e => (keep, fmtErr e)
+    | _, _ => bad
+  | ["dump"] => (keep, dumpGrid g nag)
+  | "clc" :: k :: rest => clc k rest
+  | "iclc" :: k :: rest => clc k rest
+  | [op, x, y, m, ic, r] =>
+    if hex then bad else
+    match x.toInt?, y.toInt?, bool? m, bool? ic, r.toNat? with
+    | some x, some y, some m, some ic, some r =>
+      if op = "nbhd" || op = "inbhd" || op = "nbrs" || op = "inbrs" || op = "nmask" then
+        let (nc', res) := getNbhd g.dim nc { pos := (x, y), moore := m, ic := ic, r := r }
+        let st := St.grid g hex nag nc' hc
+        match res with
+        | .error e => (st, fmtErr e)
+        | .ok cells =>
+          if op = "nbhd" || op = "inbhd" then (st, sp (fmtCoords cells))
+          else if op = "nmask" then (st, sp (fmtBits (g.allCells.map fun c => decide (c ∈ cells))))
+          else (st, sp (fmtIds (cellsContents g cells)))
+      else bad
+    | _, _, _, _, _ => bad
+  | [op, x, y, ic, r] =>
+    if !hex then bad else
+    match x.toInt?, y.toInt?, bool? ic, r.toNat? with
+    | some x, some y, some ic, some r =>
+      if !inGridB g (x, y) then bad
+      else if op = "hnbhd" || op = "ihnbhd" || op = "hnbrs" || op = "ihnbrs" then
+        let (hc', cells) := getHexNbhd g.dim hc { pos := (x, y), ic := ic, r := r }
+        let st := St.grid g hex nag nc hc'
+        if op = "hnbhd" || op = "ihnbhd" then (st, sp (fmtCoords cells)) else (st, sp (fmtIds (cellsContents g cells)))
+      else bad
+    | _, _, _, _ => bad
+  | _ => bad
+
+def netLine (t : Net) (nag : Nat) (ws : List String) : St × String :=
+  let keep := St.net t nag
+  let bad : St × String := (keep, "bad-op")
+  let upd (r : Net × Res) : St × String := (St.net r.1 nag, fmtRes r.2)
+  match ws with
+  | ["nplace", a, v] =>
+    match a.toNat?, v.toNat? with
+    | some a, some v => if a < nag then upd (t.place a v) else bad
+    | _, _ => bad
+  | ["nremove", a] =>
+    match a.toNat? with
+    | some a => if a < nag then upd (t.remove a) else bad
+    | _ => bad
+  | ["nmove", a, v] =>
+    match a.toNat?, v.toNat? with
+    | some a, some v => if a < nag && v < t.n then upd (t.move a v) else bad
+    | _, _ => bad
+  | "nclc" :: k :: rest =>
+    match k.toNat?, nats? rest with
+    | some k, some vs => if vs.length = k && vs.all (· < t.n) then (keep, sp (fmtIds (t.cellsContents vs))) else bad
+    | _, _ => bad
+  | [op, v, ic, r] =>
+    match v.toNat?, bool? ic, r.toNat? with
+    | some v, some ic, some r =>
+      if v ≥ t.n then bad
+      else if op = "nnbhd" then (keep, sp (fmtIds (t.nbhd v ic r)))
+      else if op = "nnbrs" then (keep, sp (fmtIds (t.cellsContents (t.nbhd v ic r))))
+      else bad
+    | _, _, _ => bad
+  | ["nagents"] => (keep, sp (fmtIds ((List.range t.n).flatMap t.content)))
+  | ["nisempty", v] =>
+    match v.toNat? with
+    | some v => if v < t.n then (keep, if (t.content v).isEmpty then "ok 1" else "ok 0") else bad
+    | _ => bad
+  | ["ndump"] =>
+    let ps := (List.range nag).map fun a => match t.pos a with | some v => toString v | none => "-"
+    let cs := (List.range t.n).filterMap fun v => if (t.content v).isEmpty then none else some (toString v ++ "=" ++ fmtCell (t.content v))
+    (keep, s!"ok P {" ".intercalate ps} C {" ".intercalate cs}")
+  | _ => bad
+
+def stepLine (st : St) (ws : List String) : St × String :=
+  match ws with
+  | ["scenario", "grid", kind, w, h, torus, layers, cutoff, nag] =>
+    let km : Option (Bool × Bool) :=      -- (multi, hex)
+      if kind = "single" then some (false, false) else if kind = "multi" then some (true, false)
+      else if kind = "hexsingle" then some (false, true) else if kind = "hexmulti" then some (true, true) else none
+    match km, w.toNat?, h.toNat?, bool? torus, bool? layers, cutoff.toNat?, nag.toNat? with
+    | some (multi, hex), some w, some h, some torus, some _, some cutoff, some nag =>
+      if w ≥ 1 && h ≥ 1 then (St.grid (init w h torus multi cutoff) hex nag [] [], "ok") else (st, "bad-op")
+    | _, _, _, _, _, _, _ => (st, "bad-op")
+  | "scenario" :: "net" :: n :: nag :: m :: rest =>
+    match n.toNat?, nag.toNat?, m.toNat?, (nats? rest).bind npairs with
+    | some n, some nag, some m, some es =>
+      if es.length = m && es.all (fun e => e.1 < n && e.2 < n && e.1 ≠ e.2) then (St.net (Net.init n es) nag, "ok") else (st, "bad-op")
+    | _, _, _, _ => (st, "bad-op")
+  | _ =>
+    match st with
+    | .none => (st, "bad-op")
+    | .grid g hex nag nc hc => gridLine g hex nag nc hc ws
+    | .net t nag => netLine t nag ws
+
+partial def loop (h : IO.FS.Stream) (out : IO.FS.Stream) (st : St) : IO Unit := do
+  let line ← h.getLine
+  if line.isEmpty then return ()
+  let (st', o) := stepLine st (words line.trimAscii.toString)
+  out.putStrLn o
+  loop h out st'
+
+def main : IO Unit := do
+  let out ← IO.getStdout
+  loop (← IO.getStdin) out .none
+  out.flush
